@@ -597,8 +597,8 @@ pub fn child_e3(tier_s: &str, specs_path: &str) -> i32 {
                         jobs.push(e3::job(
                             format!("C03/socket/{}/stage{}/{}{}", ty.name(), stage, spec.chars().take(48).collect::<String>(), if eof { "/eof" } else { "" }),
                             json!({"scenario":"socket","type":ty.name(),"stage":stage,"spec":spec,"eof":eof}),
-                            tier.pick(1, 2),
-                            50_000,
+                            tier.pick(2, 3),
+                            200_000,
                             move || socket_scenario(ty, stage, spec2.clone(), eof),
                         ));
                     }
@@ -694,7 +694,7 @@ pub fn run(tier: Tier, replay: Option<String>) -> i32 {
         classes.entry(outcome_sig).or_insert((desc.clone(), spec.clone()));
     }
     // (a) exhaustive alphabet sweep, partitioned over child processes by the first two symbols
-    let sweep_len = tier.pick(5, 6);
+    let sweep_len = tier.pick(6, 7);
     let mut parts: Vec<String> = vec![];
     for a in SIGMA {
         for b in SIGMA {
